@@ -9,7 +9,7 @@ from checks_cfg import CHECKS
 REGISTERED = {
     "C01": ("runtime monitoring: end-to-end differential oracle (tree equality at the system boundary) over seeded configurations, race detector on",
             "Each run executes a seeded sample of real transfers (real client filter or direct client glue, 0-2 real relays, real trz/tsz role functions, loopback tunnel) and judges every one at the boundary: both sides' reports, names shown, destination tree vs source tree. It samples the configuration space; it does not enumerate it.",
-            "harness wires, in-process server roles, fake chooser; fork mode and the real pty binaries are not exercised by this check", "DESIGN.md 5/C01"),
+            "harness wires, in-process server roles and a small family of real trz/tsz child processes (tunnel, fork mode, ulimit -n 64); fake chooser", "DESIGN.md 5/C01"),
     "C02": ("runtime monitoring: byte-level fault injection on the live connection + 'never success with different content' oracle",
             "Single and multiple byte faults (flip, delete, duplicate, insert, truncate) are injected online at logical offsets of either direction of real transfers, enumerated over every message boundary and header byte of a recorded fault-free transcript; any side reporting success, or the receiver acknowledging a file, is checked against the source bytes.",
             "faults are random/enumerated, not adversarial MD5 forgeries; offsets are logical positions in one transcript per scenario", "DESIGN.md 5/C02"),
@@ -21,7 +21,7 @@ REGISTERED = {
             "random tables are well-formed (injective, codes outside the protected set)", "DESIGN.md 5/C04"),
     "C05": ("runtime monitoring: byte-exact transparency oracle on a live filter across stream classes, option sets and transfer histories",
             "A real TrzszFilter is fed seeded output/input streams (binary, escape soup, near-miss triggers, zmodem/OSC52 fragments, path-like input) under all option sets and chunkings, before and after histories of transfers ending in success, failure, refusal, cancel and stop; both directions must come out byte-identical.",
-            "clipboard and chooser are faked; the real pty wrapper binary is covered only by the exit-status sub-check", "DESIGN.md 5/C05"),
+            "clipboard and chooser are faked; the real trzsz binary on a pty is covered by a small family (blob out, bytes in, exit status)", "DESIGN.md 5/C05"),
     "C06": ("runtime monitoring: independent recogniser as reference model for the real detector, filter-level ACT counting",
             "Every generated read is judged by a hand-written recogniser of the trigger grammar and vetoes; the real detector (client and relay mode) must agree on firing and fields, its output must have the documented form, and a real filter must write exactly one ACT per genuine trigger and nothing otherwise.",
             "recogniser encodes the documented per-read rules; ids repeated beyond the 49 most recent tracked ids are don't-care", "DESIGN.md 5/C06"),
@@ -36,7 +36,7 @@ REGISTERED = {
             "file-system snapshot of the sandbox parent, not syscall tracing, in the quick tier", "DESIGN.md 5/C09"),
     "C10": ("runtime monitoring: stop injection at every message boundary (crash-point enumeration) with bounded-return, outcome and deletion-set oracles, race detector on",
             "A stop (keep/delete, client or server initiated) is injected before/after every message of a recorded transcript and at PRNG instants under schedule perturbation; both sides must return within the bound with a stopped outcome (or verified success), kept files must equal their sources and the deletion set must be exactly what the transfer created.",
-            "bounds are wall-clock with a confirm-alone rule; SIGINT delivery to real processes only in the thorough tier", "DESIGN.md 5/C10"),
+            "bounds are wall-clock with a confirm-alone rule; real SIGINT/SIGTERM delivery to a tsz process in a small family", "DESIGN.md 5/C10"),
     "C11": ("runtime monitoring: fault enumeration (silence, write errors, local file faults) x schedule perturbation with bounded-return and goroutine-leak monitors",
             "After the handshake one fault is injected per run at every message index; both roles must return within timeout+bound with an error, the peer must be told the cause when the path still works, and no goroutine of the case may remain in transfer code.",
             "liveness restated as bounded return under a 1-2 s configured timeout", "DESIGN.md 5/C11"),
